@@ -54,6 +54,18 @@ import (
 // the bytecode followed by other arguments, or an edit.  c07Directed walks through these boundary
 // classes deterministically; the random cases mix them with everything else.
 //
+// WHO sent the remote transaction decides nothing, and the relayer the call data must name is the one
+// the message is assigned to WHEN THE ATTESTATION RUNS.  Transactions are therefore sent by the
+// assignee, by another validator, by the previous assignee of a re-assigned message, by an outsider,
+// or carry no signature at all (c07SenderClasses); a wrong account argument names an account of the
+// history - the transaction's own sender, another validator, the previous assignee, the zero
+// address, the destination (rename / c07Names) - not just a flipped bit; and messages are re-assigned
+// (Queue.ReassignValidator, what ReassignOrphanedMessages calls) between creation and attestation,
+// with the stale transaction of the previous assignee presented afterwards.  The evidence token
+// carries the recovered sender; the model's router does not read it.  Monitor
+// accepted_calldata_names_assigned_relayer decodes accepted call data and compares the relayer word
+// with the stored message's assignee.
+//
 // The expected call data is BUILT, at attestation time, with the ABI of the compass saved LAST
 // (GetLastCompassContract) - not with the one active on the chain the message was relayed on - and,
 // for a compass upload, with the message's own ABI and constructor input.  Histories therefore
@@ -85,6 +97,7 @@ type c07Env struct {
 	panics  []string // op histories of attestations that panicked
 	caps    string   // what the model was last told about the latest compass ABI (op `compass`)
 	capsOf  map[string]c07Caps
+	prev    map[uint64]int // message id -> validator the message was assigned to before it was re-assigned
 }
 
 func (e *c07Env) op(line, out string) {
@@ -130,6 +143,7 @@ func newC07EnvOpt(t *testing.T, r *Rec, seed int64, silent bool) *c07Env {
 		queue: consensustypes.Queue(evmtypes.ConsensusTurnstoneMessage, "evm", c07Chain),
 		known: map[uint64]bool{}, usedTx: map[string]uint64{}, fxSeen: map[uint64]bool{}, silent: silent,
 		caps: c07Caps{true, [4]bool{true, true, true, true}}.String(), capsOf: map[string]c07Caps{},
+		prev: map[uint64]int{},
 	}
 	for i, m := range c07Methods {
 		if got := a.Methods[m].Sig; got != c07MethodSigs[i] {
@@ -678,7 +692,9 @@ type c07Tx struct {
 	what    string
 	status  int // receipt the relayer's transaction really got: 1 ok, 0 failed, -1 no receipt
 	log     bool
-	shape   int // what else the receipt's log list looks like (c07LogShapes); carried in the evidence variant as 10*shape
+	shape   int             // what else the receipt's log list looks like (c07LogShapes); carried in the evidence variant as 10*shape
+	from    string          // who sent it: assignee | validator | previous | outsider | unsigned (c07SenderClasses)
+	sender  *common.Address // the sender recovered from its signature; nil: not recoverable (no signature)
 }
 
 // c07LogShapes: receipts are relayer/validator-supplied bytes. 0 = an ordinary foreign log before the
@@ -731,7 +747,11 @@ func (v c07Ev) token() string {
 	if v.status >= 0 {
 		st = fmt.Sprint(v.status)
 	}
-	return fmt.Sprintf("%d;tx;%s;%s;%s;%s;%d;%d", v.val+1, new(big.Int).SetBytes(v.tx.tx.Hash().Bytes()), st, c05X(v.tx.tx.Data()), c07B(v.effLog()), v.variant, v.enc)
+	from := "-"
+	if v.tx.sender != nil {
+		from = new(big.Int).SetBytes(v.tx.sender.Bytes()).String()
+	}
+	return fmt.Sprintf("%d;tx;%s;%s;%s;%s;%d;%d;%s", v.val+1, new(big.Int).SetBytes(v.tx.tx.Hash().Bytes()), st, c05X(v.tx.tx.Data()), c07B(v.effLog()), v.variant, v.enc, from)
 }
 
 // c07BlobBody is the field list of an EIP-4844 transaction (go-ethereum's BlobTx) in RLP order.
@@ -783,8 +803,39 @@ func c07DecodeTx(t *testing.T, raw []byte) *ethtypes.Transaction {
 
 var c07TxClasses = []string{"dyn", "legacy", "al", "blob"}
 
-// mkTx signs a remote transaction of the given class with the relayer's key.
+// mkTx signs a remote transaction of the given class with the key of an account that has nothing
+// to do with the chain (the harness's own relayer key).
 func (e *c07Env) mkTx(class string, to *common.Address, data []byte) *c07Tx {
+	out := e.mkTxFrom(class, to, data, e.key)
+	out.from = "outsider"
+	return out
+}
+
+// c07RecoverSender: the account a transaction was sent from, as anybody can compute it from the
+// transaction alone (signature + chain id); false when it carries no valid signature.
+func c07RecoverSender(tx *ethtypes.Transaction) (common.Address, bool) {
+	from, err := ethtypes.Sender(ethtypes.LatestSignerForChainID(tx.ChainId()), tx)
+	return from, err == nil
+}
+
+// mkTxFrom builds a remote transaction of the given class sent by the holder of key; key == nil: the
+// transaction carries NO signature (v = r = s = 0, what ethtypes.NewTx gives): it still decodes and
+// has a hash, but nobody can tell who sent it.
+func (e *c07Env) mkTxFrom(class string, to *common.Address, data []byte, key *ecdsa.PrivateKey) *c07Tx {
+	out := e.mkTxRaw(class, to, data, key)
+	from, ok := c07RecoverSender(out.tx)
+	switch {
+	case key == nil && ok:
+		e.t.Fatalf("mkTx: a sender (%s) was recovered from an unsigned %s transaction", from, class)
+	case key != nil && (!ok || from != ethcrypto.PubkeyToAddress(key.PublicKey)):
+		e.t.Fatalf("mkTx: %s transaction not signed by the intended sender", class)
+	case key != nil:
+		out.sender = &from
+	}
+	return out
+}
+
+func (e *c07Env) mkTxRaw(class string, to *common.Address, data []byte, key *ecdsa.PrivateKey) *c07Tx {
 	e.nonce++
 	signer := ethtypes.LatestSignerForChainID(e.chainID)
 	var inner ethtypes.TxData
@@ -815,20 +866,25 @@ func (e *c07Env) mkTx(class string, to *common.Address, data []byte) *c07Tx {
 			}
 			return append([]byte{ethtypes.BlobTxType}, bz...)
 		}
-		sig, err := ethcrypto.Sign(signer.Hash(c07DecodeTx(e.t, enc())).Bytes(), e.key)
-		if err != nil {
-			e.t.Fatal(err)
+		if key != nil {
+			sig, err := ethcrypto.Sign(signer.Hash(c07DecodeTx(e.t, enc())).Bytes(), key)
+			if err != nil {
+				e.t.Fatal(err)
+			}
+			body.R, body.S, body.V = new(big.Int).SetBytes(sig[:32]), new(big.Int).SetBytes(sig[32:64]), new(big.Int).SetBytes(sig[64:])
 		}
-		body.R, body.S, body.V = new(big.Int).SetBytes(sig[:32]), new(big.Int).SetBytes(sig[32:64]), new(big.Int).SetBytes(sig[64:])
-		tx := c07DecodeTx(e.t, enc())
-		if from, err := ethtypes.Sender(signer, tx); err != nil || from != ethcrypto.PubkeyToAddress(e.key.PublicKey) {
-			e.t.Fatalf("mkTx: blob transaction not signed by the relayer: %v", err)
-		}
-		return &c07Tx{tx: tx, class: class, body: body}
+		return &c07Tx{tx: c07DecodeTx(e.t, enc()), class: class, body: body}
 	default:
 		e.t.Fatalf("mkTx: class %q", class)
 	}
-	tx, err := ethtypes.SignNewTx(e.key, signer, inner)
+	if key == nil {
+		bz, err := ethtypes.NewTx(inner).MarshalBinary()
+		if err != nil {
+			e.t.Fatal(err)
+		}
+		return &c07Tx{tx: c07DecodeTx(e.t, bz), class: class}
+	}
+	tx, err := ethtypes.SignNewTx(key, signer, inner)
 	if err != nil {
 		e.t.Fatal(err)
 	}
@@ -956,6 +1012,15 @@ type c07Force struct {
 	chVariant  string // up: the same, for the handover message the accepted upload schedules
 	junk       bool   // the reported transaction carries call data that has nothing to do with the message
 	noSigs     bool   // no validator has signed the message
+	// who sent the remote transaction (c07SenderClasses; "" = an outsider), and which account its call
+	// data names where the compass method takes the relayer (c07Names; "" = the assigned relayer)
+	from  string
+	names string
+	// the message is re-assigned to another validator before it is relayed
+	reassign bool
+	// up: from / names for the handover message the accepted upload schedules
+	chFrom  string
+	chNames string
 }
 
 func (f *c07Force) txClass() string {
@@ -1011,6 +1076,174 @@ func (e *c07Env) upCallData(up *evmtypes.UploadSmartContract, mode string) []byt
 	return want
 }
 
+// c07SenderClasses: who sent the remote transaction.  VerifyAgainstTX reads the call data only, so
+// the sender decides nothing - in particular a transaction is not proof of delivery BECAUSE its
+// call data names the account that sent it.
+//   - assignee:  the validator the message is assigned to (its remote address is the relayer the
+//     genuine call data names);
+//   - validator: another validator of the set - a legitimate relayer, but not of this message;
+//   - previous:  the validator the message was assigned to before it was re-assigned;
+//   - outsider:  an account that is no validator's;
+//   - unsigned:  the transaction carries no signature at all (nobody can tell who sent it).
+var c07SenderClasses = []string{"assignee", "validator", "previous", "outsider", "unsigned"}
+
+// c07Names: the accounts a faulty relayer's call data may name instead of the assigned relayer - not
+// some random address but one that means something in the history.
+var c07Names = []string{"sender", "validator", "previous", "outsider", "zero", "compass"}
+
+// assigneeIdx: the validator whose remote address the message is assigned to (-1: none).
+func (e *c07Env) assigneeIdx(m *evmtypes.Message) int {
+	for i, v := range e.fa.Vals {
+		if v.EthAddr == common.HexToAddress(m.AssigneeRemoteAddress) {
+			return i
+		}
+	}
+	return -1
+}
+
+// senderKey picks the key the remote transaction is signed with (nil: not signed).
+func (e *c07Env) senderKey(s *c07Stored, class string) (string, *ecdsa.PrivateKey) {
+	ai := e.assigneeIdx(s.msg)
+	switch class {
+	case "assignee":
+		if ai >= 0 {
+			return class, e.fa.Vals[ai].EthPriv
+		}
+	case "previous", "validator":
+		if pi, ok := e.prev[s.q.GetId()]; ok && class == "previous" && pi != ai {
+			return class, e.fa.Vals[pi].EthPriv
+		}
+		j := e.r.Rng.Intn(len(e.fa.Vals))
+		if j == ai {
+			j = (j + 1) % len(e.fa.Vals)
+		}
+		return "validator", e.fa.Vals[j].EthPriv
+	case "unsigned":
+		return class, nil
+	}
+	return "outsider", e.key
+}
+
+// rename makes the call data name another ACCOUNT where the compass method takes one: the relayer
+// argument (the last address argument of every delivery method) or - at random only, now and then -
+// another address argument (the deployer of a user contract).  The substitute is the account whose
+// (c07Names; "" = any of those available): the transaction's own sender, another validator, the
+// previous assignee, the harness's outsider, the zero address, the transaction's destination.
+func (e *c07Env) rename(ca *c07Args, s *c07Stored, sender *common.Address, dst common.Address, whose string) string {
+	r := e.r.Rng
+	ai := e.assigneeIdx(s.msg)
+	cands := map[string]common.Address{
+		"outsider": ethcrypto.PubkeyToAddress(e.key.PublicKey), "zero": {}, "compass": dst,
+	}
+	if sender != nil {
+		cands["sender"] = *sender
+	}
+	if pi, ok := e.prev[s.q.GetId()]; ok && pi != ai {
+		cands["previous"] = e.fa.Vals[pi].EthAddr
+	}
+	for _, j := range r.Perm(len(e.fa.Vals)) {
+		if v := e.fa.Vals[j].EthAddr; j != ai && (sender == nil || v != *sender) {
+			cands["validator"] = v
+			break
+		}
+	}
+	forced := whose != ""
+	if _, ok := cands[whose]; !ok {
+		var avail []string
+		for _, w := range c07Names {
+			if _, ok := cands[w]; ok {
+				avail = append(avail, w)
+			}
+		}
+		whose = avail[r.Intn(len(avail))]
+	}
+	var addrArgs []int
+	for i, a := range ca.args {
+		if _, ok := a.(common.Address); ok {
+			addrArgs = append(addrArgs, i)
+		}
+	}
+	i := addrArgs[len(addrArgs)-1] // the relayer
+	if !forced && len(addrArgs) > 1 && r.Intn(4) == 0 {
+		i = addrArgs[r.Intn(len(addrArgs)-1)]
+	}
+	ca.args[i] = cands[whose]
+	return fmt.Sprintf("name:%s.addr%d=%s", ca.method, i, whose)
+}
+
+// relayerWord decodes call data as a call of the delivery method and returns the account it names
+// as relayer (the last address argument); false when it is not a well-formed call of that method.
+func (e *c07Env) relayerWord(method string, data []byte) (common.Address, bool) {
+	m, ok := e.abi.Methods[method]
+	if !ok || len(data) < 4 || !bytes.Equal(data[:4], m.ID) {
+		return common.Address{}, false
+	}
+	vals, err := m.Inputs.Unpack(data[4:])
+	if err != nil {
+		return common.Address{}, false
+	}
+	for i := len(vals) - 1; i >= 0; i-- {
+		if a, ok := vals[i].(common.Address); ok {
+			return a, true
+		}
+	}
+	return common.Address{}, false
+}
+
+// queueObj: the consensus queue object of the chain, built from the evm keeper's own options (what
+// the consensus keeper works with).
+func (e *c07Env) queueObj(ctx sdk.Context) consensus.Queue {
+	a := e.fa.App()
+	opts, err := a.EvmKeeper.SupportedQueues(ctx)
+	if err != nil {
+		e.t.Fatalf("SupportedQueues: %v", err)
+	}
+	for _, o := range opts {
+		if o.QueueTypeName != e.queue {
+			continue
+		}
+		qo := o.QueueOptions
+		if qo.Sg == nil {
+			qo.Sg = a.ConsensusKeeper
+		}
+		if qo.Cdc == nil {
+			qo.Cdc = a.AppCodec()
+		}
+		q, err := consensus.NewQueue(qo)
+		if err != nil {
+			e.t.Fatalf("NewQueue: %v", err)
+		}
+		return q
+	}
+	e.t.Fatalf("queue %s is not supported by the evm keeper", e.queue)
+	return consensus.Queue{}
+}
+
+// reassign hands the message to another validator the way ReassignOrphanedMessages does for a message
+// nobody relayed in time (Queue.ReassignValidator: assignee, remote address and height are rewritten,
+// collected signatures stay).  From then on the expected call data names the NEW relayer; whatever the
+// previous assignee sends - or sent - for it names the wrong one.
+func (e *c07Env) reassign(ctx sdk.Context, id uint64) error {
+	s := e.load(ctx, id)
+	if s == nil {
+		return fmt.Errorf("reassign: message %d not stored", id)
+	}
+	old := e.assigneeIdx(s.msg)
+	n := len(e.fa.Vals)
+	nw := (max(old, 0) + 1 + e.r.Rng.Intn(n-1)) % n
+	if err := e.queueObj(ctx).ReassignValidator(ctx, id, e.fa.ValAddr(nw).String(), e.fa.Vals[nw].EthAddr.Hex()); err != nil {
+		return err
+	}
+	if got := e.load(ctx, id); got == nil || e.assigneeIdx(got.msg) != nw {
+		return fmt.Errorf("reassign: message %d is not assigned to validator %d afterwards", id, nw)
+	}
+	if old >= 0 {
+		e.prev[id] = old
+	}
+	e.r.Stat("reassigned")
+	return nil
+}
+
 // buildTx builds the transaction a (possibly faulty) relayer reports for the stored message.
 func (e *c07Env) buildTx(s *c07Stored, f *c07Force) *c07Tx {
 	r := e.r.Rng
@@ -1019,6 +1252,7 @@ func (e *c07Env) buildTx(s *c07Stored, f *c07Force) *c07Tx {
 	var data []byte
 	var to *common.Address
 	class := "dyn"
+	from, key := "outsider", e.key
 	if up := s.msg.GetUploadSmartContract(); up != nil {
 		mode := "exact"
 		switch {
@@ -1043,6 +1277,8 @@ func (e *c07Env) buildTx(s *c07Stored, f *c07Force) *c07Tx {
 		if f != nil {
 			class = f.txClass()
 		}
+		// the upload attester derives the new compass address from the sender: always a signed transaction
+		from, key = e.senderKey(s, []string{"outsider", "outsider", "assignee", "validator"}[r.Intn(4)])
 	} else {
 		n := len(s.q.GetSignData())
 		pl := n
@@ -1059,15 +1295,47 @@ func (e *c07Env) buildTx(s *c07Stored, f *c07Force) *c07Tx {
 			exact, what = false, "empty-prefix"
 		}
 		ca := e.relayerArgs(s, pl)
-		if f == nil {
-			switch k := r.Intn(10); {
-			case k == 0 || k == 1: // single field
-				exact, what = false, "edit:"+e.corrupt(&ca)
-			case k == 2: // several fields
-				a := e.corrupt(&ca)
-				b := e.corrupt(&ca)
-				exact, what = false, "edit2:"+a+"+"+b
+		// who sends it, where to, and which account its call data names as relayer
+		fromClass, names := "outsider", ""
+		_, reassigned := e.prev[s.q.GetId()]
+		switch {
+		case f != nil:
+			if f.from != "" {
+				fromClass = f.from
 			}
+			names = f.names
+		case reassigned && r.Intn(2) == 0:
+			// the transaction the PREVIOUS assignee sent for the message: genuine in every field, but
+			// it names (and comes from) the relayer the message is no longer assigned to
+			fromClass, names = "previous", "previous"
+		default:
+			fromClass = []string{"outsider", "outsider", "outsider", "assignee", "assignee", "assignee", "validator", "validator", "unsigned", "unsigned"}[r.Intn(10)]
+		}
+		from, key = e.senderKey(s, fromClass)
+		var sender *common.Address
+		if key != nil {
+			a := ethcrypto.PubkeyToAddress(key.PublicKey)
+			sender = &a
+		}
+		dst := compass
+		if f == nil && r.Intn(6) == 0 {
+			// same call data, but sent to some other contract: VerifyAgainstTX only reads tx.Data()
+			dst = common.HexToAddress(c05ValidAddr(e.r))
+			foreign = true
+		}
+		to = &dst
+		switch k := r.Intn(10); {
+		case names != "":
+			exact, what = false, e.rename(&ca, s, sender, dst, names)
+		case f != nil:
+		case k == 0 || k == 1: // single field
+			exact, what = false, "edit:"+e.corrupt(&ca)
+		case k == 2: // several fields
+			a := e.corrupt(&ca)
+			b := e.corrupt(&ca)
+			exact, what = false, "edit2:"+a+"+"+b
+		case k == 3: // an account argument names another account of this history
+			exact, what = false, e.rename(&ca, s, sender, dst, "")
 		}
 		var err error
 		data, err = e.abi.Pack(ca.method, ca.args...)
@@ -1106,19 +1374,17 @@ func (e *c07Env) buildTx(s *c07Stored, f *c07Force) *c07Tx {
 			e.r.Stat(fmt.Sprintf("exact-relabelled:%s:%v", what, isExact))
 			exact = isExact
 		}
-		dst := compass
-		if f == nil && r.Intn(6) == 0 {
-			// same call data, but sent to some other contract: VerifyAgainstTX only reads tx.Data()
-			dst = common.HexToAddress(c05ValidAddr(e.r))
-			foreign = true
+		if strings.HasPrefix(what, "name:") {
+			e.r.Stat(fmt.Sprintf("names:%s:from=%s:exact=%v", what[strings.LastIndex(what, "=")+1:], from, exact))
 		}
-		to = &dst
 		class = []string{"dyn", "dyn", "dyn", "legacy", "legacy", "al", "blob", "blob", "blob", "blob"}[r.Intn(10)]
 		if f != nil {
 			class = f.txClass()
 		}
 	}
-	out := e.mkTx(class, to, data)
+	out := e.mkTxFrom(class, to, data, key)
+	out.from = from
+	e.r.Stat("sender:" + from)
 	out.exact, out.what, out.foreign, out.status, out.log = exact, what, foreign, 1, true
 	if class == "blob" {
 		// which serialization of the transaction the reporters put into their proofs
@@ -1289,6 +1555,7 @@ func (e *c07Env) attest(ctx sdk.Context, id uint64, evs []c07Ev, kind string) (c
 	before := e.observe(ctx)
 	e.chainLine(before)
 	grp := e.quorumGroup(ctx, evs)
+	stored := e.load(ctx, id) // the message as it is stored when the attestation runs
 	class = e.runAttest(ctx, id)
 	after := e.observe(ctx)
 
@@ -1383,6 +1650,21 @@ func (e *c07Env) attest(ctx sdk.Context, id uint64, evs []c07Ev, kind string) (c
 			tx := grp.tx
 			if !tx.exact {
 				e.r.Hit("accept_implies_exact_calldata", "accepted a transaction whose call data is not the message's encoding ("+tx.what+")", e.lines)
+			}
+			// a direct consequence of "call data equals the encoding of that message (... relayer ...)",
+			// read off the accepted bytes themselves: the account they name as relayer is the one the
+			// message is assigned to - whoever sent the transaction
+			if mi := c07MethodOf(kind); mi >= 0 && stored != nil {
+				want := common.HexToAddress(stored.msg.AssigneeRemoteAddress)
+				if got, ok := e.relayerWord(c07Methods[mi], tx.tx.Data()); ok && got != want {
+					whose := "another account"
+					if tx.sender != nil && got == *tx.sender {
+						whose = "the transaction's own sender"
+					}
+					e.r.Hit("accepted_calldata_names_assigned_relayer", fmt.Sprintf("accepted a %s transaction (sent by: %s) whose call data names %s as relayer, not the relayer the message is assigned to", kind, tx.from, whose), e.lines)
+				} else if ok {
+					e.r.Stat("accepted:names-assigned-relayer:sent-by-" + tx.from)
+				}
 			}
 			if tx.foreign {
 				e.r.Stat("observed:accepted-tx-not-addressed-to-compass")
@@ -1666,6 +1948,30 @@ func c07Directed(t *testing.T, r *Rec) {
 			run("up", &c07Force{upCtor: ctor, upData: data})
 		}
 	}
+	// who sent the transaction x which account its call data names as relayer: the genuine encoding
+	// names the ASSIGNED relayer and is accepted whoever sent it (the assignee, another validator, an
+	// outsider, nobody identifiable); naming anybody else - the transaction's own sender included - is
+	// refused whoever sent it
+	classes := []string{"dyn", "legacy", "al", "blob"}
+	k := 0
+	for _, kind := range []string{"uv", "slc", "usc"} {
+		for _, from := range []string{"assignee", "validator", "outsider", "unsigned"} {
+			for _, names := range []string{"", "sender", "validator", "zero"} {
+				if from == "unsigned" && names == "sender" {
+					continue
+				}
+				k++
+				run(kind, &c07Force{existing: true, from: from, names: names, class: classes[k%4], enc: k % 3})
+			}
+		}
+		// ... and after the message was re-assigned: what the previous assignee sent names the wrong relayer
+		for _, c := range [][2]string{{"previous", "previous"}, {"previous", "sender"}, {"previous", ""}, {"assignee", ""}, {"assignee", "previous"}, {"outsider", "previous"}, {"unsigned", "previous"}} {
+			run(kind, &c07Force{existing: true, reassign: true, from: c[0], names: c[1]})
+		}
+	}
+	for _, c := range [][2]string{{"assignee", ""}, {"validator", "sender"}, {"outsider", "sender"}, {"assignee", "validator"}, {"unsigned", ""}, {"validator", ""}} {
+		run("up", &c07Force{upCtor: "regular", upData: "exact", chFrom: c[0], chNames: c[1]})
+	}
 	r.Stat(fmt.Sprintf("directed-cases:%d", n))
 }
 
@@ -1724,8 +2030,25 @@ func (e *c07Env) driveMessage(ctx sdk.Context, id uint64, kind string, caseKey *
 			k = 0
 		}
 	}
+	// 2b. nobody relayed the message in time and it is re-assigned to another validator - before or
+	// after the signatures were collected (they stay) - so the relayer the call data must name changes
+	reassign := kind != "up" && r.Rng.Intn(6) == 0
+	if f != nil {
+		reassign = f.reassign
+	}
+	reassignFirst := r.Rng.Intn(2) == 0
+	if reassign && reassignFirst {
+		if err := e.reassign(ctx, id); err != nil {
+			return err
+		}
+	}
 	if err := e.sign(ctx, id, c07Perm(r, k)); err != nil {
 		return fmt.Errorf("sign: %w", err)
+	}
+	if reassign && !reassignFirst {
+		if err := e.reassign(ctx, id); err != nil {
+			return err
+		}
 	}
 	// 3. public access data selects the valset
 	cur := e.observe(ctx).cur
@@ -1971,7 +2294,7 @@ func (e *c07Env) driveMessage(ctx sdk.Context, id uint64, kind string, caseKey *
 				key := ""
 				var fch *c07Force
 				if f != nil {
-					fch = &c07Force{abiVariant: f.chVariant, junk: f.chVariant != "" && f.junk}
+					fch = &c07Force{abiVariant: f.chVariant, junk: f.chVariant != "" && f.junk, from: f.chFrom, names: f.chNames}
 				}
 				if err := e.driveMessage(ctx, x, "ch", &key, fch); err != nil {
 					return fmt.Errorf("handover: %w", err)
